@@ -772,7 +772,7 @@ def eval_sys_read(klong):
         f.at_eof = True
         return None
     else:
-        i,a = kg_read_array(r, 0, klong._backend, module=klong.current_module(), read_neg=True)
+        i,a = kg_read_array(r, 0, klong._backend, module=klong.current_module(), read_neg=True, ignore_newline=True)
         # i counts characters; offsets of a text file do not (multi-byte characters)
         f.raw.seek(k,0)
         f.raw.read(i)
